@@ -526,7 +526,7 @@ int main (int argc, char **argv) {
     if (pid == 0) {
       close (fd[0]);
       FILE *out = fdopen (fd[1], "w");
-      alarm (120);
+      alarm (20);
       run_case (out, line);
       fflush (out);
       _exit (0);
